@@ -256,7 +256,14 @@ def _materialise():
             return mus, cvs
 
         def add_sample(self, X_t, Y_t, dim_index=None):
+            if isinstance(X_t, (set, frozenset)):
+                X_t = list(X_t)
             X_t = np.array(X_t, dtype=float)
+            if X_t.ndim == 1 and X_t.size != self.input_dim:
+                # index form (PaVeBa / Auer hand the model a collection of design indices)
+                rec = {"X": X_t.copy(), "Y": np.array(Y_t, dtype=float).copy(), "designs": [int(i) for i in X_t]}
+                self.add_sample_calls.append(rec)
+                return
             rec = {"X": X_t.copy(), "Y": np.array(Y_t, dtype=float).copy(),
                    "designs": [self.design_index(x) for x in np.atleast_2d(X_t)]}
             if dim_index is not None:
